@@ -183,6 +183,7 @@ func digestEquivalence(alg Algorithm, signer Signer, verifier Verifier) {
 	}
 	if err != nil {
 		vAssert("digest: no bytes with an error", sig == nil)
+		vAssert("digest: signing fails only when the primitive fails", vEnvFailed())
 		vReach("sign failed")
 		return
 	}
